@@ -1,0 +1,118 @@
+//go:build verif
+
+package stackage
+
+// Verification hooks (build tag "verif"): read-only access to hidden state
+// for the differential harness in /verif. Not part of the package API.
+
+import (
+	"reflect"
+	"sort"
+	"unsafe"
+)
+
+func verifFuncID(f any) uintptr {
+	v := reflect.ValueOf(f)
+	if !v.IsValid() || v.IsNil() {
+		return 0
+	}
+	return v.Pointer()
+}
+
+func verifCfg(c *nodeConfig) map[string]any {
+	if c == nil {
+		return nil
+	}
+	m := map[string]any{
+		"typ": int(c.typ), "cap": c.cap, "opt": int(c.opt), "sym": c.sym, "ljc": c.ljc,
+		"ord": c.ord, "mtx": c.mtx != nil, "ldr": c.ldr != nil, "id": c.id, "cat": c.cat,
+		"ppf": verifFuncID(c.ppf), "vpf": verifFuncID(c.vpf), "rpf": verifFuncID(c.rpf),
+		"eqf": verifFuncID(c.eqf), "umf": verifFuncID(c.umf), "maf": verifFuncID(c.maf),
+		"evl": verifFuncID(c.evl), "lss": verifFuncID(c.lss), "mfn": verifFuncID(c.mfn),
+	}
+	enc := make([][]string, 0, len(c.enc))
+	for _, e := range c.enc {
+		enc = append(enc, append([]string{}, e...))
+	}
+	m["enc"] = enc
+	m["err"] = ""
+	m["errset"] = c.err != nil
+	if c.err != nil {
+		m["err"] = c.err.Error()
+	}
+	if c.log != nil {
+		m["lvl"] = int(c.log.lvl)
+		m["logger"] = uintptr(unsafe.Pointer(c.log.log))
+		std := 3 // user supplied
+		switch c.log.log {
+		case devNull:
+			std = 0
+		case stdout:
+			std = 1
+		case stderr:
+			std = 2
+		}
+		m["loggerStd"] = std
+	}
+	m["auxnil"] = c.aux == nil
+	if c.aux != nil {
+		m["aux"] = reflect.ValueOf(c.aux).Pointer()
+		keys := make([]string, 0, len(c.aux))
+		for k := range c.aux {
+			keys = append(keys, k)
+		}
+		sort.Strings(keys)
+		m["auxkeys"] = keys
+	}
+	return m
+}
+
+// VerifDump returns the hidden state of a Stack or Condition (or an alias of
+// one): the configuration record field by field (closures and pointers as
+// identities) and the raw slots.
+func VerifDump(x any) map[string]any {
+	if s, ok := stackTypeAliasConverter(x); ok && s.stack != nil {
+		m := map[string]any{"is": "stack", "rawlen": len(*s.stack), "ptr": uintptr(unsafe.Pointer(s.stack))}
+		if len(*s.stack) > 0 {
+			c, ok := (*s.stack)[0].(*nodeConfig)
+			m["slot0cfg"] = ok
+			if ok {
+				m["cfg"] = verifCfg(c)
+			}
+			m["slots"] = append([]any{}, (*s.stack)[1:]...)
+		}
+		return m
+	}
+	if c, ok := conditionTypeAliasConverter(x); ok && c.condition != nil {
+		m := map[string]any{"is": "condition", "ptr": uintptr(unsafe.Pointer(c.condition)),
+			"kw": c.condition.kw, "ex": c.condition.ex, "opnil": c.condition.op == nil}
+		if c.condition.op != nil {
+			m["optext"] = c.condition.op.String()
+			m["opctx"] = c.condition.op.Context()
+		}
+		m["cfg"] = verifCfg(c.condition.cfg)
+		return m
+	}
+	return map[string]any{"is": "other"}
+}
+
+// VerifMutexHeld reports whether the lock bookkeeping field is set.
+func VerifMutexHeld(x any) bool {
+	if s, ok := stackTypeAliasConverter(x); ok && s.stack != nil && len(*s.stack) > 0 {
+		if c, ok := (*s.stack)[0].(*nodeConfig); ok {
+			return c.ldr != nil
+		}
+	}
+	return false
+}
+
+// VerifID returns the identity of the underlying *stack / *condition.
+func VerifID(x any) uintptr {
+	if s, ok := stackTypeAliasConverter(x); ok && s.stack != nil {
+		return uintptr(unsafe.Pointer(s.stack))
+	}
+	if c, ok := conditionTypeAliasConverter(x); ok && c.condition != nil {
+		return uintptr(unsafe.Pointer(c.condition))
+	}
+	return 0
+}
